@@ -19,7 +19,7 @@ BUDGET = {"quick": 45, "thorough": 900}
 RUN_TIMEOUT = 120
 SELFTEST_PAIRS = {"quick": 10, "thorough": 30}
 PROBES = ["7z_per_file_layout", "7z_mixed_groups", "7z_encoded_header", "7z_lzma", "7z_copy", "zip_stored", "tar_compressed", "empty_member",
-          "directory_member", "hidden_or_unsupported_member", "prepack_fault", "postpack_flip_zip", "postpack_flip_tar", "member_multi_result",
+          "directory_member", "hidden_or_unsupported_member", "prepack_fault", "postpack_flip_zip", "postpack_flip_tar", "postpack_flip_7z_per_file", "member_multi_result",
           "member_fixture_doc", "zero_members", "earlier_archive_in_same_process", "same_basename_twice_in_archive"]
 RULE = ("one run = one archive built by a reference writer (zipfile / tarfile / independent 7z writer; every layout) from 0-8 member "
         "documents, read fault-free against the per-member reference model, then re-built once per member k with that member "
@@ -320,6 +320,8 @@ def run_case(case: dict) -> dict:
             plan.append([k, fr.choice(PRE), fr.randrange(1 << 30)])
             if fmt in ("zip", "tar") and len(datas[m["name"]]) > 0:
                 plan.append([k, "postflip", fr.randrange(1 << 30)])
+            if fmt == "7z" and (spec.get("7z") or {}).get("layout") == "per_file" and len(datas[m["name"]]) > 0 and len(files) >= 2:
+                plan.append([k, "postflip7z", fr.randrange(1 << 30)])  # one folder per file: damage to one packed stream is local by construction
     for k, kind, fseed in plan:
         if k >= len(files):
             continue
@@ -329,6 +331,36 @@ def run_case(case: dict) -> dict:
         spec2 = _spec_with_raw(spec)
         tgt = [x for x in spec2["members"] if x["kind"] == "file"][k]
         alt_k = None
+        if kind == "postflip7z":
+            # the packed stream of this member = what the same writer produces for an archive holding this member alone
+            one = dict(spec2, members=[tgt])
+            single = archgen.build(one)
+            enc = single[32:32 + int.from_bytes(single[12:20], "little")]
+            pos = arc.find(enc, 32) if enc else -1
+            base = os.path.basename(nm)
+            if pos < 0 or sum(1 for x in files if os.path.basename(x["name"]) == base) != 1:
+                continue
+            b = bytearray(arc)
+            b[pos + r.randrange(len(enc))] ^= 1 << r.randrange(8)
+            arc2 = bytes(b)
+            probe("postpack_flip_7z_per_file")
+            faults[kind] = faults.get(kind, 0) + 1
+            got2, exc2 = _read(arc2, apath)
+            evals += 1
+            focus = dict(case, faults=[[k, kind, fseed]])
+            log.ev("fault", k, kind, None if got2 is None else len(got2), type(exc2).__name__ if exc2 else None)
+            if exc2 is not None:
+                viol.append({"class": "corrupt_member_aborts_archive", "sig": f"{fmt}|{kind}|{type(exc2).__name__}", "case": focus,
+                             "detail": f"member {k} ({nm}): one bit of its own packed stream flipped (one folder per file): read_archive raised {exc2!r}; other members lost"})
+            else:
+                # whatever the damaged member yields (nothing, or text decoded from damaged bytes: 7z CRCs are not this property's business),
+                # every other member comes out as before
+                others_exp = [x for j, mm in enumerate(files) if j != k for x in refs[mm["name"]]]
+                others_got = [g for g in got2 if g[0] != base]
+                if others_got != others_exp:
+                    viol.append({"class": "corrupt_member_not_contained", "sig": f"{fmt}|{kind}|other_members_changed", "case": focus,
+                                 "detail": f"member {k} ({nm}) damaged in its own packed stream: other members {len(others_got)} results, expected {len(others_exp)}"})
+            continue
         if kind == "postflip":
             reg = _data_region(fmt, arc, nm)
             if not reg or reg[1] <= 0:
